@@ -334,6 +334,10 @@ class World:
     def fire(self, opt):
         v, alt, is_fault = opt
         self.steps += 1
+        if is_fault:
+            self.data["faulty"] = True
+            self.data.setdefault("faults", []).append((v.name, v.pending.label(), alt))
+            self.emit("fault", vp=v, alt=alt, op=v.pending)
         if alt == "kill":
             self.log(f"{v.name}: KILLED before {v.pending.label()}")
             self.kill(v, "fault")
